@@ -33,6 +33,7 @@ var c13Labels = []c13Label{
 	{name: "lookalike-scheme-suffix", key: "io.cncf.notary.signingSchemeX", cose: true, jws: true},
 	{name: "lookalike-expiry-prefix", key: "io.cncf.notary.expir", cose: true, jws: true},
 	{name: "unsigned-header-name", key: "io.cncf.notary.signingAgent", cose: true, jws: true},
+	{name: "unsigned-header-name(timestamp)", key: "io.cncf.notary.timestampSignature", cose: true, jws: true},
 	{name: "empty-text", key: "", cose: true, jws: true},
 	{name: "x5c-name", key: "x5c", jws: true},
 	{name: "int-15", key: int64(15), cose: true},
